@@ -24,6 +24,8 @@ versions are `major.minor.patch` (no prerelease part); where the code would rais
 passed to a checker that needs a string, a checker applied to the wrong entry class) the model emits the
 marker kind `pyRaises`.
 -/
+import Std.Data.HashMap
+import Std.Data.HashSet
 import HedVerif.Generated.C14Tables
 
 namespace HedVerif.Compliance
@@ -195,21 +197,42 @@ def verLT (a b : Str) : Option Bool := (verLE b a).map (!·)
 
 /-! ### sections: which entries are kept in `all_names`, which are duplicates -/
 
-/-- generic `_add_to_dict` bookkeeping: an entry is probed with `probe e`; if the key is registered it is a
-duplicate, else it becomes visible and registers `reg e`.  `keys` are the registered keys so far. -/
-def visG (reg : Entry → List Str) (probe : Entry → Str) (keys : List Str) : List Entry → List Entry
-  | [] => []
-  | e :: r => if probe e ∈ keys then visG reg probe keys r else e :: visG reg probe (reg e ++ keys) r
+/-- an entry with its position in the section list -/
+abbrev IE := Nat × Entry
 
-def keysG (reg : Entry → List Str) (probe : Entry → Str) (keys : List Str) : List Entry → List Str
+/-- dictionary keys carry a hash of their text (Python `dict`s are hash tables; `Std.HashMap` / `HashSet`
+are used the same way).  `mkKey` is injective, so key equality is text equality. -/
+structure HKey where
+  h : UInt64
+  s : Str
+deriving DecidableEq, Repr
+
+instance : Hashable HKey := ⟨fun k => k.h⟩
+
+def hashStr (s : Str) : UInt64 := s.foldl (fun h c => h * 1000003 + c.toNat.toUInt64) 7
+def mkKey (s : Str) : HKey := ⟨hashStr s, s⟩
+
+abbrev KeySet := Std.HashSet HKey
+abbrev KeyMap := Std.HashMap HKey Nat
+
+/-- generic `_add_to_dict` bookkeeping: an entry is probed with `probe e`; if the key is registered it is a
+duplicate, else it becomes visible and registers `reg e`.  `keys` are the registered keys so far, `i` the
+position of the head of the list. -/
+def visG (reg : Entry → List HKey) (probe : Entry → HKey) (keys : KeySet) (i : Nat) : List Entry → List IE
+  | [] => []
+  | e :: r => if keys.contains (probe e) then visG reg probe keys (i + 1) r
+              else (i, e) :: visG reg probe (keys.insertMany (reg e)) (i + 1) r
+
+def keysG (reg : Entry → List HKey) (probe : Entry → HKey) (keys : KeySet) : List Entry → KeySet
   | [] => keys
-  | e :: r => if probe e ∈ keys then keysG reg probe keys r else keysG reg probe (reg e ++ keys) r
+  | e :: r => if keys.contains (probe e) then keysG reg probe keys r
+              else keysG reg probe (keys.insertMany (reg e)) r
 
 /-- the entries that hit a registered key (with that key): what ends up in `_duplicate_names` -/
-def dupG (reg : Entry → List Str) (probe : Entry → Str) (keys : List Str) : List Entry → List (Str × Entry)
+def dupG (reg : Entry → List HKey) (probe : Entry → HKey) (keys : KeySet) (i : Nat) : List Entry → List (HKey × IE)
   | [] => []
-  | e :: r => if probe e ∈ keys then (probe e, e) :: dupG reg probe keys r
-              else dupG reg probe (reg e ++ keys) r
+  | e :: r => if keys.contains (probe e) then (probe e, (i, e)) :: dupG reg probe keys (i + 1) r
+              else dupG reg probe (keys.insertMany (reg e)) (i + 1) r
 
 def sufs : List Str → List (List Str)
   | [] => []
@@ -228,38 +251,33 @@ def shortKey (name : Str) : Str := (splitOn '/' (fold name)).getLast?.getD []
 /-- key under which a unit is kept: symbols are case-sensitive (`HedSchemaUnitSection._check_if_duplicate`) -/
 def unitKey (e : Entry) : Str := if e.has Key.UnitSymbol then e.name else fold e.name
 
-def regOf : Sec → Entry → List Str
-  | .tags => fun e => forms e.name
-  | .units => fun e => [unitKey e]
-  | _ => fun e => [e.name]
+def regOf : Sec → Entry → List HKey
+  | .tags => fun e => (forms e.name).map mkKey
+  | .units => fun e => [mkKey (unitKey e)]
+  | _ => fun e => [mkKey e.name]
 
-def probeOf : Sec → Entry → Str
-  | .tags => fun e => shortKey e.name
-  | .units => unitKey
-  | _ => fun e => e.name
+def probeOf : Sec → Entry → HKey
+  | .tags => fun e => mkKey (shortKey e.name)
+  | .units => fun e => mkKey (unitKey e)
+  | _ => fun e => mkKey e.name
 
-/-- `section.values()` = `all_names.values()` -/
-def visible (s : Schema) (t : Sec) : List Entry := visG (regOf t) (probeOf t) [] (s.sec t)
+/-- `section.values()` = `all_names.values()` (with positions) -/
+def visible (s : Schema) (t : Sec) : List IE := visG (regOf t) (probeOf t) ∅ 0 (s.sec t)
 
 /-- `section.get(name)` for the sections looked up by exact name -/
 def findByName (s : Schema) (t : Sec) (name : Str) : Option Entry := (s.sec t).find? (·.name = name)
 
 /-! ### the tag table (`long_form_tags`), parents, children, inherited attributes -/
 
-/-- `long_form_tags`: registered form ↦ entry; a later registration of the same key shadows -/
-def tagTable (acc : List (Str × Entry)) : List Entry → List (Str × Entry)
+/-- `long_form_tags` built from the names alone: registered form ↦ position of the entry; a later
+registration of the same key shadows -/
+def tagTable (acc : KeyMap) (i : Nat) : List Str → KeyMap
   | [] => acc
-  | e :: r =>
-    if shortKey e.name ∈ acc.map (·.1) then tagTable acc r
-    else tagTable ((forms e.name).map (·, e) ++ acc) r
+  | n :: r =>
+    if acc.contains (mkKey (shortKey n)) then tagTable acc (i + 1) r
+    else tagTable (acc.insertMany ((forms n).map (fun f => (mkKey f, i)))) (i + 1) r
 
-def lookupT (tbl : List (Str × Entry)) (k : Str) : Option Entry :=
-  match tbl with
-  | [] => none
-  | (k', e) :: r => if k' = k then some e else lookupT r k
-
-/-- `schema.tags.get(name)` / `_get_tag_entry(name)` -/
-def findTag (s : Schema) (name : Str) : Option Entry := lookupT (tagTable [] (s.sec .tags)) (fold name)
+def lookupN (tbl : KeyMap) (k : HKey) : Option Nat := tbl[k]?
 
 /-- `name.rpartition("/")[0]` -/
 def parentName (name : Str) : Str := joinWith slash (splitOn '/' name).dropLast
@@ -272,26 +290,43 @@ def shortTagName (name : Str) : Str :=
 
 def isPlaceholder (name : Str) : Bool := endsWith name ['/', '#']
 
+/-- what `finalize_entry` of the tag entries sets up.  `tbl`, `parent`, `hashChild` depend on the names only. -/
 structure TagCtx where
-  tbl : List (Str × Entry)
+  tags : Array Entry               -- every tag entry (duplicates too: all are finalized)
+  tbl : KeyMap
+  parent : Array (Option Nat)      -- `_parent_tag`
+  hashChild : Array Bool           -- `takes_value_child_entry is not None`
   inheritable : List Str
-  all : List Entry          -- every tag entry (duplicates too: all are finalized)
 
-def TagCtx.parent (c : TagCtx) (e : Entry) : Option Entry :=
-  let p := parentName e.name
-  if p = [] then none else lookupT c.tbl (fold p)
+def parentOfName (tbl : KeyMap) (n : Str) : Option Nat :=
+  let p := parentName n
+  if p = [] then none else lookupN tbl (mkKey (fold p))
 
-def TagCtx.hashChild (c : TagCtx) (e : Entry) : Bool := (lookupT c.tbl (fold (e.name ++ ['/', '#']))).isSome
+def mkTagCtx (tags : List Entry) (inh : List Str) : TagCtx :=
+  let names := tags.map (·.name)
+  let tbl := tagTable ∅ 0 names
+  { tags := tags.toArray, tbl := tbl,
+    parent := (names.map (parentOfName tbl)).toArray,
+    hashChild := (names.map fun n => (lookupN tbl (mkKey (fold (n ++ ['/', '#'])))).isSome).toArray,
+    inheritable := inh }
+
+/-- `schema.tags.get(name)` / `_get_tag_entry(name)` -/
+def TagCtx.findTag (c : TagCtx) (name : Str) : Option IE :=
+  match lookupN c.tbl (mkKey (fold name)) with
+  | some j => c.tags[j]?.map (j, ·)
+  | none => none
 
 /-- `_check_inherited_attribute_internal`: own and ancestors' values, nearest first; an entry that has a
 `#` child ends the walk (itself excluded) -/
-def TagCtx.chainVals (c : TagCtx) (a : Str) : Nat → Entry → List AttrVal
+def TagCtx.chainVals (c : TagCtx) (a : Str) : Nat → Nat → List AttrVal
   | 0, _ => []
-  | fuel + 1, e =>
-    if c.hashChild e then []
+  | fuel + 1, i =>
+    if c.hashChild[i]?.getD false then []
     else
-      let own := (getAttr a e.attrs).toList
-      match c.parent e with
+      let own := match c.tags[i]? with
+        | some e => (getAttr a e.attrs).toList
+        | none => []
+      match (c.parent[i]?).join with
       | some p => own ++ c.chainVals a fuel p
       | none => own
 
@@ -301,14 +336,14 @@ def allText : List AttrVal → Option (List Str)
   | .flag :: _ => none
 
 /-- `inherited_attributes.get(a)` (`_finalize_inherited_attributes`) -/
-def TagCtx.inhVal (c : TagCtx) (e : Entry) (a : Str) : Option AttrVal :=
+def TagCtx.inhVal (c : TagCtx) (ie : IE) (a : Str) : Option AttrVal :=
   if a ∈ c.inheritable then
-    match c.chainVals a (e.name.length + 1) e with
-    | [] => getAttr a e.attrs
+    match c.chainVals a c.tags.size ie.1 with
+    | [] => getAttr a ie.2.attrs
     | v :: vs => match allText (v :: vs) with
       | some ts => some (.text (joinWith [','] ts))
       | none => some v
-  else getAttr a e.attrs
+  else getAttr a ie.2.attrs
 
 def gen83 (s : Schema) : Bool :=
   let cand : Option Str :=
@@ -321,29 +356,30 @@ def gen83 (s : Schema) : Bool :=
 
 /-- `HedSchemaTagSection._finalize_section`: names of the inheritable attributes -/
 def inheritable (s : Schema) : List Str :=
-  let l := if gen83 s then ((visible s .attributes).filter (fun e => !e.has Key.AnnotationProperty)).map (·.name)
-           else ((visible s .attributes).filter (fun e => e.has Key.IsInheritedProperty)).map (·.name)
+  let attrs := (visible s .attributes).map (·.2)
+  let l := if gen83 s then (attrs.filter (fun e => !e.has Key.AnnotationProperty)).map (·.name)
+           else (attrs.filter (fun e => e.has Key.IsInheritedProperty)).map (·.name)
   if l = [] then [Key.ExtensionAllowed] else l
 
-def tagCtx (s : Schema) : TagCtx := ⟨tagTable [] (s.sec .tags), inheritable s, s.sec .tags⟩
+def tagCtx (s : Schema) : TagCtx := mkTagCtx (s.sec .tags) (inheritable s)
 
 /-- `entry.has_attribute(a, return_value=True)`: inherited view for tags, own attributes elsewhere -/
-def attrOf (c : TagCtx) (t : Sec) (e : Entry) (a : Str) : Option AttrVal :=
+def attrOf (c : TagCtx) (t : Sec) (ie : IE) (a : Str) : Option AttrVal :=
   match t with
-  | .tags => c.inhVal e a
-  | _ => getAttr a e.attrs
+  | .tags => c.inhVal ie a
+  | _ => getAttr a ie.2.attrs
 
-def hasOf (c : TagCtx) (t : Sec) (e : Entry) (a : Str) : Bool := (attrOf c t e a).isSome
+def hasOf (c : TagCtx) (t : Sec) (ie : IE) (a : Str) : Bool := (attrOf c t ie a).isSome
 
-/-- `parent.children`: tag entries whose parent lookup gives `p`, one per `short_tag_name` (the last wins) -/
-def TagCtx.children (c : TagCtx) (p : Entry) : List Entry :=
-  let ch := c.all.filter fun x => match c.parent x with
-    | some q => q.name = p.name
-    | none => false
-  let rec dedup : List Entry → List Entry
-    | [] => []
-    | x :: r => if r.any (fun y => shortTagName y.name = shortTagName x.name) then dedup r else x :: dedup r
-  dedup ch
+def dedupShort : List IE → List IE
+  | [] => []
+  | x :: r => if r.any (fun y => shortTagName y.2.name = shortTagName x.2.name) then dedupShort r
+              else x :: dedupShort r
+
+/-- `entry.children`: tag entries whose parent is entry `p`, one per `short_tag_name` (the last wins) -/
+def TagCtx.children (c : TagCtx) (p : Nat) : List IE :=
+  dedupShort ((List.range c.tags.size).filterMap fun x =>
+    if (c.parent[x]?).join = some p then c.tags[x]?.map (x, ·) else none)
 
 /-! ### valid attributes of a section, unknown attributes -/
 
@@ -351,12 +387,12 @@ def elementKey (s : Schema) : Str := if gen83 s then Key.ElementDomain else Key.
 
 /-- `HedSchema._get_attributes_for_section` (names only) -/
 def validAttrs (s : Schema) (t : Sec) : List Str :=
-  let attrs := visible s .attributes
+  let attrs := (visible s .attributes).map (·.2)
   let withProp (k : Str) := (attrs.filter (·.has k)).map (·.name)
   let ek := elementKey s
   match t with
   | .properties => withProp ek
-  | .attributes => (visible s .properties).map (·.name) ++ withProp ek
+  | .attributes => (visible s .properties).map (·.2.name) ++ withProp ek
   | .tags =>
     if gen83 s then (attrs.filter (fun e => e.has Key.TagDomain || e.has ek)).map (·.name)
     else (attrs.filter (fun e => !e.has Key.UnitClassProperty && !e.has Key.UnitProperty
@@ -370,9 +406,9 @@ def validAttrs (s : Schema) (t : Sec) : List Str :=
   | .valueClasses =>
     (attrs.filter (fun e => e.has (if gen83 s then Key.ValueClassDomain else Key.ValueClassProperty) || e.has ek)).map (·.name)
 
-/-- `entry._unknown_attributes` after loading -/
-def unknownAttrs (s : Schema) (t : Sec) (e : Entry) : List Str :=
-  (e.attrs.map (·.1)).filter (fun a => a ∉ validAttrs s t)
+/-- `entry._unknown_attributes` after loading, given the valid attributes of its section -/
+def unknownAttrs (valid : List Str) (e : Entry) : List Str :=
+  (e.attrs.map (·.1)).filter (fun a => a ∉ valid)
 
 /-! ### units of a class -/
 
@@ -397,6 +433,8 @@ def derivUnit (units mods : List Entry) (cname : Str) (u : Str) : Option Entry :
     | some y => if y.has Key.UnitSymbol then none else some y
     | none => none
 
+def modifiersOf (s : Schema) : List Entry := (visible s .unitModifiers).map (·.2)
+
 /-! ### the attribute checkers -/
 
 def knownVersions (env : Env) (lib : Str) : List Str :=
@@ -413,37 +451,38 @@ def libVersion (s : Schema) (lib : Str) : Option Str :=
   | none => if lib = [] && s.header.withStandard ≠ [] then some s.header.withStandard else none
 
 /-- the library name `tag_is_deprecated_check` works with -/
-def libFor (s : Schema) (c : TagCtx) (t : Sec) (e : Entry) : Str :=
-  match attrOf c t e Key.InLibrary with
-  | some v => if v.str = [] && s.header.withStandard = [] then s.header.library else v.str
+def libFor (s : Schema) (c : TagCtx) (t : Sec) (ie : IE) : Str :=
+  match attrOf c t ie Key.InLibrary with
+  | some v => v.str
   | none => if s.header.withStandard = [] then s.header.library else []
 
 /-- the library name `verify_tag_id` works with -/
-def idLib (c : TagCtx) (t : Sec) (e : Entry) : Str :=
-  match attrOf c t e Key.InLibrary with
+def idLib (c : TagCtx) (t : Sec) (ie : IE) : Str :=
+  match attrOf c t ie Key.InLibrary with
   | some v => v.str
   | none => []
 
-def findIn (s : Schema) (t : Sec) (item : Str) : Option (Option Entry) :=
+/-- lookup of a referenced item; outer `none`: `item_exists_check` raises for that section -/
+def findIn (s : Schema) (c : TagCtx) (t : Sec) (item : Str) : Option (Option IE) :=
   match t with
-  | .tags => some (findTag s item)
-  | .unitClasses => some (findByName s .unitClasses item)
-  | .valueClasses => some (findByName s .valueClasses item)
+  | .tags => some (c.findTag item)
+  | .unitClasses => some ((findByName s .unitClasses item).map (0, ·))
+  | .valueClasses => some ((findByName s .valueClasses item).map (0, ·))
   | _ => none
 
 /-- `item_exists_check` -/
-def vItemExists (s : Schema) (c : TagCtx) (t : Sec) (e : Entry) (a : Str) (target : Sec) : List IK :=
-  match getAttr a e.attrs with
+def vItemExists (s : Schema) (c : TagCtx) (t : Sec) (ie : IE) (a : Str) (target : Sec) : List IK :=
+  match getAttr a ie.2.attrs with
   | none => []
   | some .flag => [.pyRaises]
   | some (.text v) =>
     (splitOn ',' v).flatMap fun item =>
       if item = [] then []
-      else match findIn s target item with
+      else match findIn s c target item with
         | none => [.pyRaises]
         | some none => [.genericValueInvalid]
-        | some (some ie) =>
-          if hasOf c target ie Key.DeprecatedFrom && !hasOf c t e Key.DeprecatedFrom then [.valueDeprecated] else []
+        | some (some x) =>
+          if hasOf c target x Key.DeprecatedFrom && !hasOf c t ie Key.DeprecatedFrom then [.valueDeprecated] else []
 
 /-- `unit_exists` -/
 def vUnitExists (s : Schema) (t : Sec) (e : Entry) (a : Str) : List IK :=
@@ -453,44 +492,54 @@ def vUnitExists (s : Schema) (t : Sec) (e : Entry) (a : Str) : List IK :=
      | none => []
      | some .flag => [.pyRaises]
      | some (.text u) =>
-       match derivUnit (s.sec .units) (visible s .unitModifiers) e.name u with
+       match derivUnit (s.sec .units) (modifiersOf s) e.name u with
        | none => if u ≠ [] then [.defaultUnitsInvalid] else []
        | some ue => if ue.has Key.DeprecatedFrom && !e.has Key.DeprecatedFrom then [.defaultUnitsDeprecated] else [])
   | _ => [.pyRaises]
 
 /-- `tag_is_placeholder_check` -/
-def vPlaceholder (c : TagCtx) (t : Sec) (e : Entry) : List IK :=
+def vPlaceholder (c : TagCtx) (t : Sec) (ie : IE) : List IK :=
   match t with
   | .tags =>
-    (if !isPlaceholder e.name then [.nonPlaceholderHasClass] else []) ++
-    (match c.parent e with
-     | some p => if (c.children p).any (fun x => x.name ≠ e.name)
-                 then [.invalidSibling] else []
+    (if !isPlaceholder ie.2.name then [.nonPlaceholderHasClass] else []) ++
+    (match (c.parent[ie.1]?).join with
+     | some p => if (c.children p).any (fun x => x.1 ≠ ie.1) then [.invalidSibling] else []
      | none => []) ++
-    (if c.children e ≠ [] then [.invalidChild] else [])
+    (if (c.children ie.1).isEmpty then [] else [.invalidChild])
   | _ => [.pyRaises]
 
+/-- the value test of `tag_is_deprecated_check`: the version must be a released one of the library and
+older than the schema's own version of that library (`lv`) -/
+def deprecatedVerdict (versions : List Str) (lv : Option Str) (v : Str) : List IK :=
+  if v = [] then []
+  else if v ∉ versions then [.deprecatedInvalid]
+  else match lv with
+    | none => []
+    | some lv =>
+      if lv = [] then []
+      else match verLE lv v with
+        | some true => [.deprecatedInvalid]
+        | some false => []
+        | none => [.pyRaises]
+
+/-- "a deprecatedFrom version that is unknown or not older than the schema" -/
+def unknownOrNotOlder (versions : List Str) (lv : Option Str) (v : Str) : Bool :=
+  v ∉ versions ||
+  (match lv with
+   | some lv => lv ≠ [] && verLE lv v = some true
+   | none => false)
+
 /-- `tag_is_deprecated_check` -/
-def vDeprecatedFrom (env : Env) (s : Schema) (c : TagCtx) (t : Sec) (e : Entry) (a : Str) : List IK :=
-  let lib := libFor s c t e
-  let versions := knownVersions env lib
-  (match getAttr a e.attrs with
+def vDeprecatedFrom (env : Env) (s : Schema) (c : TagCtx) (t : Sec) (ie : IE) (a : Str) : List IK :=
+  let lib := libFor s c t ie
+  (match getAttr a ie.2.attrs with
    | none => []
    | some .flag => [.deprecatedInvalid]
-   | some (.text v) =>
-     if v = [] then []
-     else if v ∉ versions then [.deprecatedInvalid]
-     else match libVersion s lib with
-       | none => []
-       | some lv =>
-         if lv = [] then []
-         else match verLE lv v with
-           | some true => [.deprecatedInvalid]
-           | some false => []
-           | none => [.pyRaises]) ++
+   | some (.text v) => deprecatedVerdict (knownVersions env lib) (libVersion s lib) v) ++
   (match t with
-   | .tags => ((c.children e).filter (fun x => !hasOf c .tags x a)).map (fun _ => IK.childOfDeprecated)
-   | .unitClasses => (((s.sec .units).filter (·.owner = e.name)).filter (fun x => !x.has a)).map (fun _ => IK.childOfDeprecated)
+   | .tags => ((c.children ie.1).filter (fun x => !hasOf c .tags x a)).map (fun _ => IK.childOfDeprecated)
+   | .unitClasses =>
+     (((s.sec .units).filter (·.owner = ie.2.name)).filter (fun x => !x.has a)).map (fun _ => IK.childOfDeprecated)
    | _ => [])
 
 def caretToE (s : Str) : Str := s.map (fun ch => if ch = '^' then 'e' else ch)
@@ -530,10 +579,10 @@ def vIsNumeric (e : Entry) (a : Str) : List IK :=
   | none => [.numericInvalid]
 
 /-- `attribute_is_deprecated` -/
-def vAttrDeprecated (s : Schema) (c : TagCtx) (t : Sec) (e : Entry) (a : Str) : List IK :=
+def vAttrDeprecated (s : Schema) (c : TagCtx) (t : Sec) (ie : IE) (a : Str) : List IK :=
   let where_ : Sec := if t = .attributes then .properties else .attributes
   match findByName s where_ a with
-  | some ae => if ae.has Key.DeprecatedFrom && !hasOf c t e Key.DeprecatedFrom then [.valueDeprecated] else []
+  | some ae => if ae.has Key.DeprecatedFrom && !hasOf c t ie Key.DeprecatedFrom then [.valueDeprecated] else []
   | none => []
 
 /-- hedId of the same-named entry of the previous release (`previous_schema.get_tag_entry(name, section)`) -/
@@ -543,38 +592,47 @@ def prevId (env : Env) (lib : Str) (t : Sec) (name : Str) : Option Str :=
 
 def idRangeOf (env : Env) (lib : Str) : Option (Nat × Nat) := (env.idRange.find? (·.1 = lib)).map (·.2)
 
+def hedPrefix : Str := ['H', 'E', 'D', '_']
+
+/-- the old id differs (`old_id and old_id != new_id`) -/
+def idChanged (env : Env) (lib : Str) (t : Sec) (name : Str) (n : Int) : Bool :=
+  match prevId env lib t name with
+  | some old =>
+    old ≠ [] && (match pyInt (removePrefix hedPrefix old) with
+      | some o => o ≠ 0 && o ≠ n
+      | none => true)
+  | none => false
+
+/-- the id is outside the library's `id_range` -/
+def idOutOfRange (env : Env) (lib : Str) (n : Int) : Bool :=
+  match idRangeOf env lib with
+  | some (lo, hi) => n < Int.ofNat lo || n > Int.ofNat hi
+  | none => false
+
 /-- `HedIDValidator.verify_tag_id` -/
-def vHedId (env : Env) (c : TagCtx) (t : Sec) (e : Entry) (a : Str) : List IK :=
-  match getAttr a e.attrs with
+def vHedId (env : Env) (c : TagCtx) (t : Sec) (ie : IE) (a : Str) : List IK :=
+  match getAttr a ie.2.attrs with
   | none => []
   | some .flag => [.pyRaises]
   | some (.text v) =>
-    let lib := idLib c t e
-    match pyInt (removePrefix ['H', 'E', 'D', '_'] v) with
+    let lib := idLib c t ie
+    match pyInt (removePrefix hedPrefix v) with
     | none => [.hedIdInvalid]
     | some n =>
-      (match prevId env lib t e.name with
-       | some old =>
-         if old = [] then []
-         else (match pyInt (removePrefix ['H', 'E', 'D', '_'] old) with
-           | some o => if o ≠ 0 && o ≠ n then [.hedIdInvalid] else []
-           | none => [.hedIdInvalid])
-       | none => []) ++
-      (match idRangeOf env lib with
-       | some (lo, hi) => if n < Int.ofNat lo || n > Int.ofNat hi then [.hedIdInvalid] else []
-       | none => [])
+      (if idChanged env lib t ie.2.name n then [.hedIdInvalid] else []) ++
+      (if idOutOfRange env lib n then [.hedIdInvalid] else [])
 
-def validate (env : Env) (s : Schema) (c : TagCtx) (t : Sec) (e : Entry) (a : Str) : V → List IK
-  | .itemExists target => vItemExists s c t e a target
-  | .unitExists => vUnitExists s t e a
-  | .placeholder => vPlaceholder c t e
-  | .deprecatedFrom => vDeprecatedFrom env s c t e a
-  | .conversionFactor => vConversionFactor e a
-  | .allowedCharacter => vAllowedCharacter e a
-  | .inLibrary => vInLibrary s e a
-  | .isNumeric => vIsNumeric e a
-  | .attrDeprecated => vAttrDeprecated s c t e a
-  | .hedId => vHedId env c t e a
+def validate (env : Env) (s : Schema) (c : TagCtx) (t : Sec) (ie : IE) (a : Str) : V → List IK
+  | .itemExists target => vItemExists s c t ie a target
+  | .unitExists => vUnitExists s t ie.2 a
+  | .placeholder => vPlaceholder c t ie
+  | .deprecatedFrom => vDeprecatedFrom env s c t ie a
+  | .conversionFactor => vConversionFactor ie.2 a
+  | .allowedCharacter => vAllowedCharacter ie.2 a
+  | .inLibrary => vInLibrary s ie.2 a
+  | .isNumeric => vIsNumeric ie.2 a
+  | .attrDeprecated => vAttrDeprecated s c t ie a
+  | .hedId => vHedId env c t ie a
 
 /-! ### selection of the checkers -/
 
@@ -584,7 +642,7 @@ def tableGet (tbl : List (Str × List V)) (a : Str) : List V :=
   | none => []
 
 /-- `_get_range_validators` -/
-def rangeValidators (ae : Entry) : List V := ae.attrs.flatMap fun (p, _) => tableGet tableRange p
+def rangeValidators (ae : Entry) : List V := ae.attrs.flatMap fun p => tableGet tableRange p.1
 
 /-- `SchemaValidator._get_validators` -/
 def validatorsFor (s : Schema) (a : Str) : List V :=
@@ -601,61 +659,73 @@ def validatorsFor (s : Schema) (a : Str) : List V :=
 def filterW (w : Bool) (l : List Issue) : List Issue := if w then l else l.filter (·.sev ≤ sevError)
 
 /-- `_run_validators`: every issue of an attribute checker is demoted to WARNING, then filtered -/
-def runValidator (env : Env) (s : Schema) (c : TagCtx) (w : Bool) (t : Sec) (e : Entry) (a : Str) (v : V) : List Issue :=
-  filterW w ((validate env s c t e a v).map fun k => ⟨k, sevWarning, t.label, e.name, a⟩)
+def runValidator (env : Env) (s : Schema) (c : TagCtx) (w : Bool) (t : Sec) (ie : IE) (a : Str) (v : V) : List Issue :=
+  filterW w ((validate env s c t ie a v).map fun k => ⟨k, sevWarning, t.label, ie.2.name, a⟩)
 
 /-- `_check_unknown_attributes`: `format_error_with_context`, severity of the kind kept -/
-def unknownIssues (s : Schema) (w : Bool) (t : Sec) (e : Entry) : List Issue :=
-  filterW w ((unknownAttrs s t e).map fun _ => ⟨.unknownAttribute, IK.unknownAttribute.sev, t.label, e.name, []⟩)
+def unknownIssues (valid : List Str) (w : Bool) (t : Sec) (e : Entry) : List Issue :=
+  filterW w ((unknownAttrs valid e).map fun _ => ⟨.unknownAttribute, IK.unknownAttribute.sev, t.label, e.name, []⟩)
 
 /-- `_check_tag_entry_attributes` -/
-def entryIssues (env : Env) (s : Schema) (c : TagCtx) (w : Bool) (t : Sec) (e : Entry) : List Issue :=
-  unknownIssues s w t e ++
-  e.attrs.flatMap fun (a, _) => (validatorsFor s a).flatMap fun v => runValidator env s c w t e a v
+def entryIssues (env : Env) (s : Schema) (c : TagCtx) (valid : List Str) (w : Bool) (t : Sec) (ie : IE) : List Issue :=
+  unknownIssues valid w t ie.2 ++
+  ie.2.attrs.flatMap fun p => (validatorsFor s p.1).flatMap fun v => runValidator env s c w t ie p.1 v
 
-/-- `check_attributes` -/
-def attrIssues (env : Env) (s : Schema) (w : Bool) : List Issue :=
-  secOrder.flatMap fun t => (visible s t).flatMap fun e => entryIssues env s (tagCtx s) w t e
+/-- `check_attributes` for the visible entries `vis` of section `t` -/
+def attrIssues (env : Env) (s : Schema) (c : TagCtx) (w : Bool) (t : Sec) (vis : List IE) : List Issue :=
+  let valid := validAttrs s t
+  vis.flatMap fun ie => entryIssues env s c valid w t ie
 
 /-! ### duplicate names -/
 
-def dedupStr : List Str → List Str
+def dedupKeys : List HKey → List HKey
   | [] => []
-  | x :: r => x :: (dedupStr r).filter (· ≠ x)
+  | x :: r => x :: (dedupKeys r).filter (· ≠ x)
 
 /-- has the unit-class entry exactly the attribute `inLibrary` (`HedSchemaUnitClassSection._check_if_duplicate`) -/
 def isClassExtension (e : Entry) : Bool := e.attrs.length = 1 && e.has Key.InLibrary
 
 /-- `_duplicate_names` of a section as (key, duplicate entry) pairs -/
-def dupPairs (s : Schema) (t : Sec) : List (Str × Entry) :=
-  let d := dupG (regOf t) (probeOf t) [] (s.sec t)
+def dupPairs (s : Schema) (t : Sec) : List (HKey × IE) :=
+  let d := dupG (regOf t) (probeOf t) ∅ 0 (s.sec t)
   match t with
-  | .unitClasses => d.filter (fun p => !isClassExtension p.2)
+  | .unitClasses => d.filter (fun p => !isClassExtension p.2.2)
   | _ => d
 
 /-- the entry already registered under the key (first member of the duplicate list) -/
-def dupOwner (s : Schema) (t : Sec) (k : Str) : Option Entry :=
+def dupOwner (s : Schema) (c : TagCtx) (t : Sec) (k : HKey) : Option IE :=
   match t with
-  | .tags => lookupT (tagTable [] (s.sec .tags)) k
-  | _ => (visible s t).find? (fun e => probeOf t e = k)
+  | .tags => (match lookupN c.tbl k with
+    | some j => c.tags[j]?.map (j, ·)
+    | none => none)
+  | _ => (visible s t).find? (fun ie => probeOf t ie.2 = k)
 
 /-- `check_duplicate_names` for one section: one issue per duplicated key -/
-def dupKinds (s : Schema) (t : Sec) : List IK :=
+def dupKinds (s : Schema) (c : TagCtx) (t : Sec) : List IK :=
   let d := dupPairs s t
-  let c := tagCtx s
-  (dedupStr (d.map (·.1))).map fun k =>
-    let members := (dupOwner s t k).toList ++ (d.filter (·.1 = k)).map (·.2)
-    let flags := members.map (fun e => hasOf c t e Key.InLibrary)
+  (dedupKeys (d.map (·.1))).map fun k =>
+    let members := (dupOwner s c t k).toList ++ (d.filter (·.1 = k)).map (·.2)
+    let flags := members.map (fun ie => hasOf c t ie Key.InLibrary)
     if flags.any id && flags.any (!·) then IK.duplicateFromLibrary else IK.duplicateNode
 
-def dupIssues (s : Schema) (w : Bool) : List Issue :=
-  secOrder.flatMap fun t => filterW w ((dupKinds s t).map fun k => ⟨k, k.sev, [], [], []⟩)
+def dupIssues (s : Schema) (c : TagCtx) (w : Bool) : List Issue :=
+  secOrder.flatMap fun t => filterW w ((dupKinds s c t).map fun k => ⟨k, k.sev, [], [], []⟩)
 
 /-! ### character classes -/
 
 structure CharSet where
-  chars : List Char
-  nonascii : Bool
+  ascii : Array Bool       -- membership of the characters below 128
+  others : List Char
+  nonascii : Bool          -- the marker "nonascii" is in the set
+
+def CharSet.empty : CharSet := ⟨Array.replicate 128 false, [], false⟩
+
+def CharSet.add (cs : CharSet) (ch : Char) : CharSet :=
+  if ch.toNat < 128 then { cs with ascii := cs.ascii.setIfInBounds ch.toNat true }
+  else { cs with others := ch :: cs.others }
+
+def CharSet.mem (cs : CharSet) (ch : Char) : Bool :=
+  if ch.toNat < 128 then cs.ascii[ch.toNat]?.getD false else ch ∈ cs.others
 
 /-- `get_allowed_characters_by_name` -/
 def charSetOf (names : List Str) : CharSet :=
@@ -663,14 +733,14 @@ def charSetOf (names : List Str) : CharSet :=
     match charTypes.find? (·.1 = n) with
     | some (_, cs, na) =>
       if n = ['n','o','n','a','s','c','i','i'] then { acc with nonascii := true }
-      else { chars := cs ++ acc.chars, nonascii := acc.nonascii || na }
+      else { cs.foldl CharSet.add acc with nonascii := acc.nonascii || na }
     | none => match n with
-      | [ch] => { acc with chars := ch :: acc.chars }
-      | _ => acc) ⟨[], false⟩
+      | [ch] => acc.add ch
+      | _ => acc) CharSet.empty
 
 /-- `get_problem_indexes`: the offending characters (one issue each) -/
 def problemChars (text : Str) (cs : CharSet) : List Char :=
-  text.filter fun ch => ch ∉ cs.chars && !(cs.nonascii && ch.toNat > 127)
+  text.filter fun ch => !cs.mem ch && !(cs.nonascii && ch.toNat > 127)
 
 def uniClass (env : Env) (ch : Char) : Bool × Bool × Bool :=
   if ch.toNat < 128 then (ch.isAlphanum, ch.isUpper, ch.isDigit)
@@ -684,13 +754,12 @@ def isDigit (env : Env) (ch : Char) : Bool := (uniClass env ch).2.2
 
 /-- name check of one entry: `validate_schema_tag_new` / `validate_schema_term_new` (≥ 8.3),
 `validate_schema_tag` / `verify_no_brackets` (< 8.3) -/
-def nameKinds (env : Env) (g83 : Bool) (t : Sec) (e : Entry) : List IK :=
+def nameKinds (env : Env) (g83 : Bool) (nameDefault : CharSet) (t : Sec) (e : Entry) : List IK :=
   let term := if t = .tags then shortTagName e.name else e.name
   if g83 then
-    let allowed := match getAttr Key.AllowedCharacter e.attrs with
-      | some (.text v) => splitOn ',' v
-      | _ => [[]]
-    let cs := charSetOf (['n','a','m','e'] :: allowed)
+    let cs := match getAttr Key.AllowedCharacter e.attrs with
+      | some (.text v) => charSetOf (['n','a','m','e'] :: splitOn ',' v)
+      | _ => nameDefault
     let bad := (problemChars term cs).map fun _ => IK.tagCharacter
     if t = .tags then
       (match term with
@@ -706,17 +775,19 @@ def nameKinds (env : Env) (g83 : Bool) (t : Sec) (e : Entry) : List IK :=
   else (term.filter fun x => x = '{' || x = '}').map fun _ => IK.tagCharacter
 
 /-- `validate_schema_description_new` / `validate_schema_description` -/
-def descKinds (env : Env) (g83 : Bool) (e : Entry) : List IK :=
-  if g83 then (problemChars e.desc (charSetOf [['t','e','x','t'], ['c','o','m','m','a']])).map fun _ => IK.descCharacter
+def descKinds (env : Env) (g83 : Bool) (descSet : CharSet) (e : Entry) : List IK :=
+  if g83 then (problemChars e.desc descSet).map fun _ => IK.descCharacter
   else (e.desc.filter fun x => !(isAlnum env x || x ∈ allowedDescCharsOld)).map fun _ => IK.descCharacter
 
-/-- `check_invalid_chars` -/
-def charIssues (env : Env) (s : Schema) (w : Bool) : List Issue :=
-  let c := tagCtx s
+/-- `check_invalid_chars` for the visible entries `vis` of section `t` -/
+def charIssues (env : Env) (s : Schema) (c : TagCtx) (w : Bool) (t : Sec) (vis : List IE) : List Issue :=
   let g := gen83 s
-  secOrder.flatMap fun t => (visible s t).flatMap fun e =>
-    if hasOf c t e Key.DeprecatedFrom then []
-    else filterW w ((nameKinds env g t e ++ descKinds env g e).map fun k => ⟨k, k.sev, t.label, e.name, []⟩)
+  let nameDefault := charSetOf [['n','a','m','e'], []]
+  let descSet := charSetOf [['t','e','x','t'], ['c','o','m','m','a']]
+  vis.flatMap fun ie =>
+    if hasOf c t ie Key.DeprecatedFrom then []
+    else filterW w ((nameKinds env g nameDefault t ie.2 ++ descKinds env g descSet ie.2).map
+      fun k => ⟨k, k.sev, t.label, ie.2.name, []⟩)
 
 /-- `check_prologue_epilogue` -/
 def prologueIssues (s : Schema) (w : Bool) : List Issue :=
@@ -740,9 +811,16 @@ def prereleaseIssues (env : Env) (s : Schema) (w : Bool) : List Issue :=
     (if s.header.withStandard ≠ [] then one [] s.header.withStandard else [])
   filterW w (ks.map fun k => ⟨k, k.sev, [], [], []⟩)
 
-/-- `check_compliance(schema, check_for_warnings = w)` as a multiset (the code sorts the list) -/
+/-- character and attribute issues of one section (`section.values()` is walked once here, twice in the code) -/
+def secIssues (env : Env) (s : Schema) (c : TagCtx) (w : Bool) (t : Sec) : List Issue :=
+  let vis := visible s t
+  charIssues env s c w t vis ++ attrIssues env s c w t vis
+
+/-- `check_compliance(schema, check_for_warnings = w)` as a multiset (the code sorts the list; here the
+issues are grouped by section) -/
 def check (env : Env) (s : Schema) (w : Bool) : List Issue :=
-  prereleaseIssues env s w ++ prologueIssues s w ++ charIssues env s w ++ attrIssues env s w ++ dupIssues s w
+  let c := tagCtx s
+  prereleaseIssues env s w ++ prologueIssues s w ++ secOrder.flatMap (secIssues env s c w) ++ dupIssues s c w
 
 /-! ### seeding faults -/
 
@@ -818,48 +896,27 @@ def Fault.kind : Fault → Kind
   | .inLibrary .. => .inLibrary
   | .hedId .. => .hedId
 
-/-- section and position of the entry a fault is seeded at -/
-def Fault.pos : Fault → Sec × Nat
-  | .dupNode i => (.tags, i)
-  | .undeclared t i _ => (t, i)
-  | .missingRef _ i _ => (.tags, i)
-  | .classAttr _ i _ => (.tags, i)
-  | .deprecatedFrom t i _ => (t, i)
-  | .conversionFactor t i _ => (t, i)
-  | .defaultUnits i _ => (.unitClasses, i)
-  | .allowedCharacter t i _ => (t, i)
-  | .inLibrary t i _ => (t, i)
-  | .hedId t i _ => (t, i)
-
-/-- the change a fault makes to the entry at its position (`dupNode` adds an entry instead) -/
-def Fault.edit : Fault → Entry → Entry
-  | .dupNode _ => id
-  | .undeclared _ _ a => withAttr a .flag
-  | .missingRef r _ x => appendVal r.key x
-  | .classAttr c _ v => withAttr c.key v
-  | .deprecatedFrom _ _ v => withAttr Key.DeprecatedFrom (.text v)
-  | .conversionFactor _ _ v => withAttr Key.ConversionFactor (.text v)
-  | .defaultUnits _ u => withAttr Key.DefaultUnits (.text u)
-  | .allowedCharacter _ _ x => appendVal Key.AllowedCharacter x
-  | .inLibrary _ _ l => withAttr Key.InLibrary (.text l)
-  | .hedId _ _ v => withAttr Key.HedID (.text v)
-
-/-- the seeded schema -/
+/-- the seeded schema: `dupNode` adds a copy of tag `i` (same long name, attributes, description) after the
+existing tags; every other fault edits the attributes of one entry -/
 def seed (f : Fault) (s : Schema) : Schema :=
   match f with
   | .dupNode i =>
     { s with sec := fun t => if t = .tags then s.sec .tags ++ ((s.sec .tags)[i]?).toList else s.sec t }
-  | f => s.modify f.pos.1 f.pos.2 f.edit
+  | .undeclared t i a => s.modify t i (withAttr a .flag)
+  | .missingRef r i x => s.modify .tags i (appendVal r.key x)
+  | .classAttr c i v => s.modify .tags i (withAttr c.key v)
+  | .deprecatedFrom t i v => s.modify t i (withAttr Key.DeprecatedFrom (.text v))
+  | .conversionFactor t i v => s.modify t i (withAttr Key.ConversionFactor (.text v))
+  | .defaultUnits i u => s.modify .unitClasses i (withAttr Key.DefaultUnits (.text u))
+  | .allowedCharacter t i x => s.modify t i (appendVal Key.AllowedCharacter x)
+  | .inLibrary t i l => s.modify t i (withAttr Key.InLibrary (.text l))
+  | .hedId t i v => s.modify t i (withAttr Key.HedID (.text v))
 
 /-- entry `i` of section `t` is kept in `all_names` (it is not a duplicate of an earlier entry) -/
 def visibleAt (s : Schema) (t : Sec) (i : Nat) : Bool :=
   match (s.sec t)[i]? with
-  | some e => probeOf t e ∉ keysG (regOf t) (probeOf t) [] ((s.sec t).take i)
+  | some e => !(keysG (regOf t) (probeOf t) ∅ ((s.sec t).take i)).contains (probeOf t e)
   | none => false
-
-/-- the entry a fault is seeded at, after seeding -/
-def seededEntry (f : Fault) (s : Schema) : Option Entry :=
-  ((s.sec f.pos.1)[f.pos.2]?).map f.edit
 
 /-- the range properties `_get_range_validators` must find in a ≥ 8.3 schema -/
 def rangeDeclared (s : Schema) (a p : Str) : Bool :=
@@ -877,7 +934,10 @@ def stdRanges (s : Schema) : Bool :=
 def compliantB (env : Env) (s : Schema) : Bool :=
   (check env s true).all (fun i => i.sev ≠ sevError) && stdRanges s
 
-/-- where each fault kind can be seeded so that it *is* that fault -/
+/-- where each fault can be seeded so that it *is* that fault (decidable; evaluated by the driver for every
+position the harness uses).  `visibleAt`: the entry is not itself a duplicate.  For `deprecatedFrom` and
+`hedId` the library of the entry is the one the code attributes to it in the seeded schema (for tags the
+inherited `inLibrary` view). -/
 def admissible (env : Env) (f : Fault) (s : Schema) : Bool :=
   let s' := seed f s
   match f with
@@ -885,15 +945,18 @@ def admissible (env : Env) (f : Fault) (s : Schema) : Bool :=
     (match (s.sec .tags)[i]? with
      | some e =>
        shortKey e.name ≠ hash &&
-       (match lookupT (tagTable [] (s.sec .tags)) (shortKey e.name) with
-        | some o => hasOf (tagCtx s) .tags o Key.InLibrary = hasOf (tagCtx s) .tags e Key.InLibrary
+       -- the node already registered under that name and the new one are both library nodes or both not
+       -- (otherwise the fault is "duplicate from library", a different code)
+       (match dupOwner s' (tagCtx s') .tags (mkKey (shortKey e.name)) with
+        | some o => hasOf (tagCtx s') .tags o Key.InLibrary
+                    = hasOf (tagCtx s') .tags ((s.sec .tags).length, e) Key.InLibrary
         | none => false)
      | none => false)
   | .undeclared t i a => visibleAt s t i && a ∉ validAttrs s' t && (t ≠ .units || a ≠ Key.UnitSymbol)
   | .missingRef r i x =>
     visibleAt s .tags i && x ≠ [] && ',' ∉ x &&
     (match r.target with
-     | .tags => (findTag s x).isNone
+     | .tags => (lookupN (tagCtx s).tbl (mkKey (fold x))).isNone
      | t => (findByName s t x).isNone)
   | .classAttr _ i _ =>
     visibleAt s .tags i && (match (s.sec .tags)[i]? with
@@ -901,13 +964,10 @@ def admissible (env : Env) (f : Fault) (s : Schema) : Bool :=
       | none => false)
   | .deprecatedFrom t i v =>
     visibleAt s t i && v ≠ [] &&
-    (match seededEntry f s with
+    (match (s'.sec t)[i]? with
      | some e' =>
-       let lib := libFor s' (tagCtx s') t e'
-       v ∉ knownVersions env lib ||
-       (match libVersion s lib with
-        | some lv => lv ≠ [] && verLE lv v = some true
-        | none => false)
+       let lib := libFor s' (tagCtx s') t (i, e')
+       unknownOrNotOlder (knownVersions env lib) (libVersion s' lib) v
      | none => false)
   | .conversionFactor t i v =>
     visibleAt s t i && (match pyFloat (caretToE v) with
@@ -916,26 +976,18 @@ def admissible (env : Env) (f : Fault) (s : Schema) : Bool :=
   | .defaultUnits i u =>
     visibleAt s .unitClasses i && u ≠ [] &&
     (match (s.sec .unitClasses)[i]? with
-     | some e => (derivUnit (s.sec .units) (visible s .unitModifiers) e.name u).isNone
+     | some e => (derivUnit (s.sec .units) (modifiersOf s) e.name u).isNone
      | none => false)
   | .allowedCharacter t i x => visibleAt s t i && x ∉ charTypeNames && x.length ≠ 1 && ',' ∉ x
   | .inLibrary t i l => visibleAt s t i && l ∉ splitOn ',' s.header.library
   | .hedId t i v =>
     visibleAt s t i && gen83 s &&
-    (match seededEntry f s with
+    (match (s'.sec t)[i]? with
      | some e' =>
-       let lib := idLib (tagCtx s') t e'
-       (match pyInt (removePrefix ['H', 'E', 'D', '_'] v) with
+       let lib := idLib (tagCtx s') t (i, e')
+       (match pyInt (removePrefix hedPrefix v) with
         | none => true                                             -- malformed
-        | some n =>
-          (match idRangeOf env lib with                            -- out of the library's range
-           | some (lo, hi) => n < Int.ofNat lo || n > Int.ofNat hi
-           | none => false) ||
-          (match prevId env lib t e'.name with                     -- changed since the previous release
-           | some old => old ≠ [] && (match pyInt (removePrefix ['H', 'E', 'D', '_'] old) with
-             | some o => o ≠ 0 && o ≠ n
-             | none => true)
-           | none => false))
+        | some n => idOutOfRange env lib n || idChanged env lib t e'.name n)
      | none => false)
 
 end HedVerif.Compliance
